@@ -25,11 +25,22 @@ _LOG = re.compile(r"^\[\d{4}-\d\d-\d\d \d\d:\d\d:\d\d\] :")
 @st.composite
 def cases(draw, tier):
     big = tier == "thorough"
-    size = draw(st.sampled_from(["s", "s", "s", "m", "l"] if not big else ["s", "m", "m", "l", "xl"]))
+    size = draw(st.sampled_from(["s", "s", "s", "s", "m", "m", "l", "l", "many", "long"] if not big else ["s", "m", "m", "l", "xl", "many", "long"]))
     if size == "s":
         ss = draw(gen.seqsets(max_n=12, max_len=60))
     elif size == "m":
         ss = draw(gen.seqsets(max_n=60, max_len=400))
+    elif size == "many":
+        # around the readers' array increments (512 sequences, 1024 lines): very many very short sequences
+        k, alpha = draw(gen.alphabets())
+        n = draw(st.sampled_from([511, 512, 513, 600, 1023, 1024, 1025]))
+        seqs = gen.expand_random(draw(st.integers(0, 2 ** 32 - 1)), alpha, n, 1, draw(st.integers(1, 6)))
+        ss = {"kind": gen.expected_kind(seqs), "seqs": seqs, "shape": "many"}
+    elif size == "long":
+        # beyond the 1024-symbol cap of the distance kernel and the 512-residue buffer increments
+        k, alpha = draw(gen.alphabets())
+        seqs = draw(gen.big_family(alpha, min_n=2, max_n=4, max_len=draw(st.sampled_from([1030, 1100, 1600]))))
+        ss = {"kind": gen.expected_kind(seqs), "seqs": seqs, "shape": "long"}
     elif size == "l":
         # >= 100 sequences (k-means) or >= 500 columns (parallel Hirschberg)
         k, alpha = draw(gen.alphabets())
@@ -85,6 +96,8 @@ def classes_of(case, rows):
     n = len([s for s in case["seqs"] if s])
     if n >= 100:
         c.append("n>=100")
+    if n >= 512:
+        c.append("n>=512")
     if max(len(s) for s in case["seqs"]) >= 500:
         c.append("len>=500")
     if "" in case["seqs"]:
